@@ -22,18 +22,23 @@ REQUIRED = ["DaeVerif.C07.Props." + n for n in (
     "reask_bounded",
     "bouncing_ends_with_error",
     "response_bit_refused",
+    # composition with the proved domain matcher (C11) and CIDR trie (C12): lean/DaeVerif/C07/Compose.lean
+    "request_match_real_is_first_match",
+    "response_match_real_is_first_match",
+    "response_match_real_empty_name",
 )]
 
 
 def run(ctx):
     ctx.trusted += [
-        "domain matcher internals (succinct trie, Aho-Corasick): modelled by their documented meaning (full / suffix / keyword on ToLower(TrimSuffix(name,'.'))), tied at API level through Match; regex matching is an oracle (Go regexp) — C11's subject",
-        "pkg/trie CIDR trie: modelled as numeric containment in the IPv4-mapped space (proved equal to the trie query in C12)",
+        "domain matcher: Props.lean uses a definition of the documented meaning (full / suffix / keyword on ToLower(TrimSuffix(name,'.'))); Compose.lean replaces it by C11's bit-exact packed-trie model through the builder's AddSet calls (theorem request/response_match_real_is_first_match), leaving as trusted only what C11 trusts: the Aho-Corasick library contract and Go regexp (oracle)",
+        "pkg/trie CIDR trie: numeric containment in Props.lean; Compose.lean goes through C12's trieMatch (HasPrefix contract over Prefix2bin128 strings)",
         "the rule optimizers of dns.New (MergeAndSort, Deduplicate): not modelled; their output is compared decision-by-decision with the unoptimized program on every generated question/answer (C04 proves them)",
         "the response cache is modelled as a key → records map of fresh entries (expiry, stale serving, LRU are C08's subject); upstream transports are fake forwarders",
         "miekg/dns Pack/Unpack/CanonicalName; names are ASCII without backslash escapes",
     ]
-    ctx.prove(["DaeVerif.C07.Props"], ["DaeVerif.C07.Props"], ["DaeVerif/C07/*.lean"], extra_targets=["c07drv"])
+    ctx.prove(["DaeVerif.C07.Props", "DaeVerif.C07.Compose"], ["DaeVerif.C07.Props"], ["DaeVerif/C07/*.lean"],
+              extra_targets=["c07drv"])
     ctx.required_theorems(REQUIRED)
 
     state = {"evaluations": 0}
@@ -97,6 +102,11 @@ def run(ctx):
                 distinct.add(op)
             if "MODEL-SPLIT" in mo:
                 ctx.proof_failures.append("driver: scan and first-match specification disagree on " + op[:300])
+            if "REAL-MATCHER-DIFFERS" in mo:
+                # the driver also runs every rq/rs through the composed path (C11's packed-trie domain matcher
+                # built from the program's AddSet calls, C12's CIDR trie) and through the documented-kind spec
+                ctx.report("composed path (real domain matcher / CIDR trie model) differs from the oracle-based model: " + mo[:300],
+                           {"stream": stream, "op": op, "impl": im, "model": mo})
             if "optimized-chain:" in im:
                 ctx.report("the production optimizer chain of dns.New changes a routing decision: " + im,
                            {"stream": stream, "op": op, "impl": im, "configuration": context_of(ol, ol.index(op) + 1)})
